@@ -142,7 +142,7 @@ func (c *simCreds) GetRequestMetadata(ctx context.Context, uri ...string) (map[s
 	}
 	out := map[string]string{}
 	for _, kv := range c.spec.MD {
-		out[kv.K] = kv.V
+		out[kv.K] = string(kv.V)
 	}
 	return out, nil
 }
@@ -191,6 +191,10 @@ func (s *Sim) startRPC(rs *rpcState) {
 		rs.ctx, rs.cancel = context.WithCancel(base)
 	}
 	rs.started = true
+	if s.ended {
+		// the run is being torn down: never leave a live context behind
+		rs.cancel()
+	}
 }
 
 func (s *Sim) callOpts(rs *rpcState) []grpc.CallOption {
